@@ -48,10 +48,55 @@ SEEDS = {
  'C20b': ('C20', 'patch2.diff', 'demo2.py', 'archive tag and branch deletion pushed in one non-atomic push; needs the remote to reject only the tag', True),
 }
 
+# second round (sub-agents told what the first round had produced and asked
+# for another mechanism / place): name: (property, deliverable dir, patch,
+# demo, what it breaks / needs, caught when first run?)
+SEEDS2 = {
+ 'C01c': ('C01', 'S01', 'patch.diff', 'demo.py', 'handle_merge_queues publishes the destinations with an extra named (non-atomic) push right after merge_queues; needs queue mode, >= 2 destinations and the server refusing one ref other than the first', True),
+ 'C02c': ('C02', 'S02', 'patch.diff', 'demo.py', 'BertE.process resets the clone after the job (in a finally) and not at all after an unexpected exception; needs a job crashing between the local merges, then another job on the same process', True),
+ 'C03c': ('C03', 'S03', 'patch.diff', 'demo.py', 'check_in_sync evaluated after update_integration_branches (always true): w/ branches frozen; needs skip_queue_when_not_needed, >= 2 targets and a follow-up commit on the feature branch', False),
+ 'C03d': ('C03', 'S03', 'patch2.diff', 'demo2.py', '_extract_pr_ids reads self._queues instead of its argument in the hotfix arm; needs a pull request on a hotfix branch whose queue build is not SUCCESSFUL', False),
+ 'C04c': ('C04', 'S04', 'patch.diff', 'demo.py', 'per-author bypass dict built from found_elem (accumulated over all users); needs >= 2 users in pr_author_options, the privileged one first', True),
+ 'C04d': ('C04', 'S04', 'patch2.diff', 'demo2.py', 'bypass helpers refactored onto _bypassed(job, option), bypass_leader_approval passes the peer key; needs required_leader_approvals >= 1 and exactly one of the two bypasses', True),
+ 'C06c': ('C06', 'S06', 'patch.diff', 'demo.py', 'status loop stops at the first non-SUCCESSFUL tip: a waiting tip masks a failed later one; needs >= 2 integration branches with [INPROGRESS, FAILED]-like vectors', True),
+ 'C07c': ('C07', 'S07', 'patch.diff', 'demo.py', 'privileged / authored flags kept from the previous comment when the author is neither the PR author nor an admin; needs an admin (or author) comment followed by a third-party option comment', True),
+ 'C08b': ('C08', 'S08', 'patch.diff', 'demo.py', 'push_all uses --force-with-lease; needs a third-party push between the cache fetch and `git remote update origin`', True),
+ 'C09c': ('C09', 'S09', 'patch.diff', 'demo.py', 'add_branch re-sorts only when the new version is lower than the last key, ranking development/x as x.0; needs development/x discovered before a development/x.y', False),
+ 'C09d': ('C09', 'S09', 'patch2.diff', 'demo2.py', 'finalize computes the merge paths up front only for hotfix destinations; needs finalize before anybody asked for the merge paths (the PR job flow)', False),
+ 'C10c': ('C10', 'S10', 'patch.diff', 'demo.py', 'git_repo.reset() only when the previous job cloned: the ls-remote cache survives jobs that end before the clone; needs such a job, an outside push and a commit event on the new tip', True),
+ 'C10d': ('C10', 'S10', 'patch2.diff', 'demo2.py', 'QueueBuildFailedMessage gets dont_repeat_if_in_history = 0; needs a queued PR with a failed queue build and a repeated event', True),
+ 'C11c': ('C11', 'S11', 'patch.diff', 'demo.py', 'per-author bypass dict built from found_elem: later authors inherit bypass_jira_check; needs >= 2 authors in pr_author_options', True),
+ 'C12c': ('C12', 'S12', 'patch.diff', 'demo.py', 'after_pull_request handler assigns {pr_id} instead of adding to the set; needs >= 2 dependencies with the last declared one merged and an earlier one not', False),
+ 'C12d': ('C12', 'S12', 'patch2.diff', 'demo2.py', 'early_checks: `not producer or not consumer` becomes `not (producer or consumer)`; needs exactly one foreign side', True),
+ 'C13c': ('C13', 'S13', 'patch.diff', 'demo.py', 'job equality through same_ref (prefix match): PR 1 == PR 12; needs two PR ids in decimal-prefix relation pending at the same time', True),
+ 'C13d': ('C13', 'S13', 'patch2.diff', 'demo2.py', 'handle_bitbucket_repo_event returns no job when the cached state equals the reported one; needs the cache to hold that state already (re-run of a green build, or a poll)', False),
+ 'C14c': ('C14', 'S14', 'patch.diff', 'demo.py', 'branch_from validated only when it is a string; needs a non-string JSON value', True),
+ 'C14d': ('C14', 'S14', 'patch2.diff', 'demo2.py', 'check_basic_auth compares login+password concatenated; needs another split of the same characters', True),
+ 'C15c': ('C15', 'S15', 'patch.diff', 'demo.py', '_reset skips the analysis of a branch whose tip was written by the robot; needs the manual commit to be below a later robot merge', False),
+ 'C16c': ('C16', 'S16', 'patch.diff', 'demo.py', 'job.details = str(_root_cause(err)) follows __cause__ / __context__ to the unmasked TimeoutExpired; needs a credentialed git command that times out', False),
+ 'C16d': ('C16', 'S16', 'patch2.diff', 'demo2.py', 'BertESession.request logs the per-request headers on failure; needs GitHub-App mode and a failing token exchange (Authorization: Bearer <JWT>)', False),
+ 'C17c': ('C17', 'S17', 'patch.diff', 'demo.py', 'handle_github_status_event writes the cache unconditionally in its INPROGRESS branch; needs success, then pending for the same commit and context', True),
+ 'C17d': ('C17', 'S17', 'patch2.diff', 'demo2.py', 'bitbucket get_build_status trusts a cached FAILED; needs a re-run going green with no webhook delivered', True),
+ 'C18c': ('C18', 'S18', 'patch.diff', 'demo.py', 'q/w name derived with str.replace("w/", ...) without a count; needs a source branch with a path component ending in w', True),
+ 'C18d': ('C18', 'S18', 'patch2.diff', 'demo2.py', 'BranchCascade.build extracts names with re.search(prefix/.*$): a feature branch ending like a destination becomes that destination', False),
+ 'C19c': ('C19', 'S19', 'patch.diff', 'test_demo.py', 'handle_commit no longer maps w/ tips to their feature branch; needs integration pull requests off', True),
+ 'C19d': ('C19', 'S19', 'patch2.diff', 'test_demo2.py', 'description template names the w/ branch before the parent id: the first number is the version major; needs an event on the integration PR only', True),
+ 'C19e': ('C19', 'S19', 'patch3.diff', 'test_demo3.py', 'deepcopy(cascade) hoisted out of the loop over merged PRs; needs >= 2 PRs leaving the queue in one run', False),
+ 'C20c': ('C20', 'S20', 'patch.diff', 'demo.py', 'DevelopmentBranch.__lt__ ranks development/N as N.0: the queued-PR gate of create_branch is skipped; needs a major-only latest development branch and queued PRs', True),
+ 'C20d': ('C20', 'S20', 'patch2.diff', 'demo2.py', 'rebuild re-submits sorted(queued_prs); needs queue order different from id order', True),
+}
+
 
 def main():
-    for name, (prop, patch, demo, needs, caught0) in sorted(SEEDS.items()):
-        src = '/tmp/seed/%s.out' % prop
+    table = {k: (v[0], v[0], v[1], v[2], v[3], v[4]) for k, v in
+             SEEDS.items()}
+    if len(sys.argv) > 1 and sys.argv[1] == 'r2':
+        table = {k: v for k, v in SEEDS2.items()}
+    elif len(sys.argv) > 1 and sys.argv[1] == 'all':
+        table.update(SEEDS2)
+    for name, (prop, sdir, patch, demo, needs, caught0) in sorted(
+            table.items()):
+        src = '/tmp/seed/%s.out' % sdir
         dst = '/verif/seeded/%s' % name
         conf = '/tmp/seed/confirm/%s' % name
         if not os.path.exists(os.path.join(src, patch)):
@@ -65,7 +110,7 @@ def main():
             res = json.load(open(os.path.join(conf, 'result.json')))
         except OSError:
             pass
-        suite = ''
+        suite = res.get('suite', '')
         try:
             suite = open(os.path.join(conf, 'suite.txt')).read().strip()
         except OSError:
@@ -82,7 +127,10 @@ def main():
         meta = {
             'name': name, 'property': prop,
             'origin': 'written by an independent sub-agent that saw only '
-                      'the property record and its own worktree of /repo',
+                      'the property record and its own worktree of /repo' +
+                      (' (second round: also told what the first round '
+                       'had produced, asked for another mechanism)'
+                       if name in SEEDS2 else ''),
             'breaks_and_needs': needs,
             'files': {'patch': 'patch.diff', 'demonstration': demo},
             'confirmed_by_me': {
